@@ -105,4 +105,213 @@ theorem row0_remove [WOps α] (s : Pdf α) (h i : Nat) (hs : ShapeInv s) (hi : s
           rw [popPhase_head]
           simp [Array.swapIfInBounds, hic, e2, hl]
 
+/-- the abstract structure: a handle → weight map and the number of handles ever created -/
+structure Abs (α : Type) where
+  m : Nat → Option α := fun _ => none
+  next : Nat := 0
+
+def Abs.step [WOps α] (a : Abs α) : Op α → Abs α
+  | .add w => if WOps.lt w (WOps.zero : α) then a
+              else { m := fun k => if k = a.next then some w else a.m k, next := a.next + 1 }
+  | .update h w => if (a.m h).isSome then { a with m := fun k => if k = h then some w else a.m k } else a
+  | .remove h => { a with m := fun k => if k = h then none else a.m k }
+  | .clear => { a with m := fun _ => none }
+  | .sample _ => a
+
+def Abs.run [WOps α] (a : Abs α) (ops : List (Op α)) : Abs α := ops.foldl Abs.step a
+
+def Refines (s : Pdf α) (a : Abs α) : Prop := (∀ h, s.getWeight h = a.m h) ∧ s.next = a.next
+
+theorem update_idx [WOps α] (s : Pdf α) (h : Nat) (w : α) :
+    (s.update h w).idx = s.idx ∧ (s.update h w).next = s.next := by
+  unfold Pdf.update
+  split
+  · exact ⟨rfl, rfl⟩
+  · split
+    · exact ⟨rfl, rfl⟩
+    · split
+      · exact ⟨rfl, rfl⟩
+      · split <;> exact ⟨rfl, rfl⟩
+
+theorem remove_idx [WOps α] (s : Pdf α) (h i : Nat) (hs : ShapeInv s) (hi : s.idx h = some i)
+    (hd : i < s.data.size) :
+    (s.remove h).next = s.next ∧
+    (s.remove h).idx = if i + 1 = s.data.size then setIdx s.idx s.data[i] none
+      else setIdx (setIdx s.idx s.data[i] none) (s.data[s.data.size - 1]'(by omega)) (some i) := by
+  have hsz := row0_size s hs
+  unfold Pdf.remove
+  rw [hi]
+  simp only [hd, dite_true]
+  unfold row0 at hsz
+  cases ht : s.tree with
+  | nil =>
+    rw [ht] at hsz
+    simp at hsz
+    omega
+  | cons c rs =>
+    rw [ht] at hsz
+    simp only [List.head?_cons, Option.getD_some] at hsz
+    by_cases h1 : s.data.size = 1
+    · have : i + 1 = s.data.size := by omega
+      rw [if_pos h1, if_pos this]
+      exact ⟨rfl, rfl⟩
+    · simp only [h1, if_false]
+      have hic : i < c.size := by omega
+      simp only [hic, dite_true]
+      split
+      · exact ⟨rfl, rfl⟩
+      · split <;> exact ⟨rfl, rfl⟩
+
+theorem refines_add [WOps α] (s : Pdf α) (a : Abs α) (w : α) (hsh : ShapeInv s) (hix : IdxSync s)
+    (hr : Refines s a) : Refines (s.add w) (a.step (.add w)) := by
+  obtain ⟨hw, hn⟩ := hr
+  by_cases hlt : WOps.lt w (WOps.zero : α) = true
+  · have : s.add w = s := by unfold Pdf.add; simp [hlt]
+    rw [this]; simp only [Abs.step, hlt, if_true]; exact ⟨hw, hn⟩
+  · have hlt' : WOps.lt w (WOps.zero : α) = false := by simpa using hlt
+    have hrow := row0_add s w hsh hlt'
+    have hsz := row0_size s hsh
+    have hidx : (s.add w).idx = setIdx s.idx s.next (some s.data.size) ∧ (s.add w).next = s.next + 1 := by
+      unfold Pdf.add; simp [hlt']
+    simp only [Abs.step, hlt', Bool.false_eq_true, if_false]
+    refine ⟨?_, by rw [hidx.2, hn]⟩
+    intro k
+    rw [getWeight_eq, hrow, hidx.1, ← hn]
+    simp only [setIdx]
+    split
+    · simp [← hsz]
+    · rw [← hw k, getWeight_eq]
+      cases hk : s.idx k with
+      | none => rfl
+      | some j =>
+        have := hix.sync.lt hk
+        simp only [Option.bind_some]
+        rw [Array.getElem?_push_lt (by omega)]
+        rw [Array.getElem?_eq_getElem (by omega)]
+
+theorem refines_update [WOps α] (s : Pdf α) (a : Abs α) (h : Nat) (w : α) (hsh : ShapeInv s)
+    (hix : IdxSync s) (hr : Refines s a) : Refines (s.update h w) (a.step (.update h w)) := by
+  obtain ⟨hw, hn⟩ := hr
+  have hsz := row0_size s hsh
+  obtain ⟨hidx, hnext⟩ := update_idx s h w
+  cases hi : s.idx h with
+  | none =>
+    have : s.update h w = s := by unfold Pdf.update; simp [hi]
+    have hm : a.m h = none := by rw [← hw h, getWeight_eq, hi]; rfl
+    rw [this]; simp only [Abs.step, hm, Option.isSome_none, Bool.false_eq_true, if_false]
+    exact ⟨hw, hn⟩
+  | some i =>
+    have hd := hix.sync.lt hi
+    have hm : (a.m h).isSome = true := by
+      rw [← hw h, getWeight_eq, hi]; simp [hsz, hd]
+    simp only [Abs.step, hm, if_true]
+    refine ⟨?_, by rw [hnext, hn]⟩
+    intro k
+    rw [getWeight_eq, row0_update s h i w hsh hi hd, hidx]
+    simp only
+    by_cases e : k = h
+    · subst e; rw [hi]; simp [hsz, hd]
+    · simp only [e, if_false]
+      rw [← hw k, getWeight_eq]
+      cases hk : s.idx k with
+      | none => rfl
+      | some j =>
+        have hj := hix.sync.lt hk
+        have : i ≠ j := by
+          intro e2; subst e2
+          exact e ((hix.sync.get hk hj).symm.trans (hix.sync.get hi hd))
+        simp [Array.getElem?_setIfInBounds, this]
+
+theorem refines_remove [WOps α] (s : Pdf α) (a : Abs α) (h : Nat) (hsh : ShapeInv s)
+    (hix : IdxSync s) (hr : Refines s a) : Refines (s.remove h) (a.step (.remove h)) := by
+  obtain ⟨hw, hn⟩ := hr
+  have hsz := row0_size s hsh
+  cases hi : s.idx h with
+  | none =>
+    have : s.remove h = s := by unfold Pdf.remove; simp [hi]
+    have hm : a.m h = none := by rw [← hw h, getWeight_eq, hi]; rfl
+    rw [this]
+    refine ⟨?_, hn⟩
+    intro k; simp only [Abs.step]
+    split
+    · rename_i e; rw [e, hw h, hm]
+    · exact hw k
+  | some i =>
+    have hd := hix.sync.lt hi
+    have hg := hix.sync.get hi hd
+    obtain ⟨hnext, hidx⟩ := remove_idx s h i hsh hi hd
+    refine ⟨?_, by rw [hnext, hn]; rfl⟩
+    intro k
+    simp only [Abs.step]
+    rw [getWeight_eq, row0_remove s h i hsh hi hd, hidx, hg]
+    by_cases hl : i + 1 = s.data.size
+    · simp only [hl, if_true, setIdx]
+      split
+      · rfl
+      · rename_i e
+        rw [← hw k, getWeight_eq]
+        cases hk : s.idx k with
+        | none => rfl
+        | some j =>
+          have hj := hix.sync.lt hk
+          have : j ≠ i := by
+            intro e2; subst e2
+            exact e ((hix.sync.get hk hj).symm.trans hg)
+          simp only [Option.bind_some]
+          rw [Array.getElem?_pop]
+          have : j < (row0 s).size - 1 := by omega
+          simp [this]
+    · simp only [hl, if_false, setIdx]
+      have hl0 : s.data.size - 1 < s.data.size := by omega
+      have fl := hix.fwd (s.data.size - 1) hl0
+      have hml : s.data[s.data.size - 1] ≠ h := by
+        intro e; rw [e, hi] at fl; simp at fl; omega
+      by_cases e1 : k = s.data[s.data.size - 1]
+      · have : ¬ k = h := by rw [e1]; exact hml
+        simp only [e1, if_true, Option.bind_some, hml, if_false]
+        rw [← hw, getWeight_eq, fl]
+        simp only [Option.bind_some]
+        rw [Array.getElem?_pop]
+        have h1 : i < (row0 s).size - 1 := by omega
+        have h2 : i < (row0 s).size := by omega
+        have h3 : s.data.size - 1 < (row0 s).size := by omega
+        simp [h1, Array.swapIfInBounds, h2, h3]
+      · simp only [e1, if_false]
+        split
+        · rfl
+        · rename_i e
+          rw [← hw k, getWeight_eq]
+          cases hk : s.idx k with
+          | none => rfl
+          | some j =>
+            have hj := hix.sync.lt hk
+            have hgk := hix.sync.get hk hj
+            have n1 : j ≠ i := by
+              intro e2; subst e2; exact e (hgk.symm.trans hg)
+            have n2 : j ≠ s.data.size - 1 := by
+              intro e2; subst e2; exact e1 hgk.symm
+            simp only [Option.bind_some]
+            rw [Array.getElem?_pop]
+            have h1 : j < (row0 s).size - 1 := by omega
+            have h2 : i < (row0 s).size := by omega
+            have h3 : s.data.size - 1 < (row0 s).size := by omega
+            have h4 : j < (row0 s).size := by omega
+            simp [h1, Array.swapIfInBounds, h2, h3, h4, n1, n2]
+
+theorem refines_step [WOps α] (s : Pdf α) (a : Abs α) (op : Op α) (hsh : ShapeInv s) (hix : IdxSync s)
+    (hr : Refines s a) : Refines (s.step op) (a.step op) := by
+  cases op with
+  | add w => exact refines_add s a w hsh hix hr
+  | update h w => exact refines_update s a h w hsh hix hr
+  | remove h => exact refines_remove s a h hsh hix hr
+  | clear => exact ⟨fun k => by simp [Pdf.step, Pdf.clear, Pdf.getWeight, Abs.step], hr.2⟩
+  | sample r => exact hr
+
+theorem refines_run [WOps α] : ∀ (ops : List (Op α)) (s : Pdf α) (a : Abs α), ShapeInv s → IdxSync s →
+    Refines s a → Refines (s.run ops) (a.run ops)
+  | [], _, _, _, _, hr => hr
+  | op :: ops, s, a, hsh, hix, hr =>
+    refines_run ops (s.step op) (a.step op) (shapeInv_step s op hsh) (idxSync_step s op hix)
+      (refines_step s a op hsh hix hr)
+
 end OmplModel.Pdf
